@@ -538,7 +538,7 @@ pub fn run_case_with(prop: &str, seed: u64, case: u64, len: usize, rep: &mut Rep
             let gen = match script {
                 None => crate::panicmon::catch(|| w.gen_op(if step < grow_steps { &grow_prof } else { &prof })),
                 Some(sc) => {
-                    let cands = enum_candidates(&w);
+                    let cands = enum_candidates(&w, prop);
                     if sc[step] >= cands.len() {
                         // the script addresses a candidate that does not exist in this state: the history is not a member of the enumeration
                         result.steps = u64::MAX;
@@ -682,7 +682,7 @@ pub fn enum_world(prop: &str, rng: Rng) -> (World, Profile, usize) {
 }
 
 /// all calls of the enumerated mode in the current state, in a deterministic order (derived from the pre-order walk)
-pub fn enum_candidates(w: &World) -> Vec<Op> {
+pub fn enum_candidates(w: &World, prop: &str) -> Vec<Op> {
     let mut out = Vec::new();
     let Some(t) = w.trees.first() else { return out };
     let id = |e: &Element| w.elem_ids.get(e).copied();
@@ -702,15 +702,17 @@ pub fn enum_candidates(w: &World) -> Vec<Op> {
             refs.push(i);
         }
     }
-    const NAMES: [&str; 2] = ["A", "B"];
+    // C11 also gets a name of maximal length: a collision then needs a suffix that no longer fits, which makes calls fail late
+    let long = crate::values::long_name(128);
+    let names: Vec<&str> = if prop == "C11" { vec!["A", "B", long.as_str()] } else { vec!["A", "B"] };
     for e in &ident {
-        for n in NAMES {
+        for n in &names {
             out.push(Op::Rename { e: *e, item: n.to_string() });
         }
     }
     for (c, kind) in &containers {
         let child = if *kind == ElementName::ArPackages { ElementName::ArPackage } else { ElementName::EcuInstance };
-        for n in NAMES {
+        for n in &names {
             out.push(Op::CreateNamed { p: *c, name: child, item: n.to_string() });
         }
         for e in &ident {
@@ -752,7 +754,7 @@ pub fn run_enumerated(prop: &str, rep: &mut Report, depth: usize, cap: usize) {
     let seed = rep.seed;
     // number of candidates in the initial state, and an upper bound for later states (the model grows by at most one element per call)
     let (w0, _, _) = enum_world(prop, Rng::new(1));
-    let n0 = enum_candidates(&w0).len();
+    let n0 = enum_candidates(&w0, prop).len();
     drop(w0);
     let width = n0 + 12 * depth;
     let total: usize = (0..depth).fold(1usize, |a, _| a.saturating_mul(width));
